@@ -161,3 +161,32 @@ func (p *Pool) Put(x any) {
 	p.mu.Unlock()
 	syncYield()
 }
+
+// OnceFunc, OnceValue and OnceValues replace their package sync namesakes in
+// woven code (the originals run f under a real sync.Once, which a task parked
+// inside f would hold against every other task without the scheduler seeing
+// it). Panics are not re-raised on later calls, unlike the originals: woven
+// code that relies on that would be noticed by the comparison anyway.
+func OnceFunc(f func()) func() {
+	var o Once
+	return func() { o.Do(f) }
+}
+
+func OnceValue[T any](f func() T) func() T {
+	var o Once
+	var v T
+	return func() T {
+		o.Do(func() { v = f() })
+		return v
+	}
+}
+
+func OnceValues[T1, T2 any](f func() (T1, T2)) func() (T1, T2) {
+	var o Once
+	var v1 T1
+	var v2 T2
+	return func() (T1, T2) {
+		o.Do(func() { v1, v2 = f() })
+		return v1, v2
+	}
+}
